@@ -1,7 +1,9 @@
 (* C11 property theorems: statements only; every proof is [exact lemma].
    [Inb] = inbound single flight + caller, [Sub] = subgraph single flight + loadByContext, both
    WITH the fixes applied ([fixed]); the [_refuted] theorems are about the historical transitions
-   ([prefix]).  Quantification: every finite list of requests, every action list accepted by [run]. *)
+   ([prefix]).  Quantification: every finite list of requests, every action list accepted by [run] -
+   arrivals, completions, failures, cancellations, PANICS of the shared work (leader) and of anybody's own
+   work, and every answer (ok / error / panic) of every participant's own client writer. *)
 From Gv Require Import lib.Bytes C11.Model C11.Spec C11.ProofsInbMain C11.ProofsSubMain
   C11.ProofsSpec C11.ProofsRefuted C11.ProofsCheckerInb C11.ProofsCheckerSub.
 From Coq Require Import Arith.
@@ -120,8 +122,8 @@ Proof. exact ProofsSubMain.progress_l. Qed.
 Print Assumptions c11_sub_progress.
 
 (* ------------------------------------------------------------------ checker *)
-Theorem c11_spec_b_sound : forall reqs os,
-  spec_b reqs os = None -> forall i, i < length reqs -> actor_ok reqs os i.
+Theorem c11_spec_b_sound : forall sub reqs os,
+  spec_b sub reqs os = None -> forall i, i < length reqs -> actor_ok sub reqs os i.
 Proof. exact ProofsSpec.spec_b_sound. Qed.
 Print Assumptions c11_spec_b_sound.
 
@@ -129,16 +131,130 @@ Print Assumptions c11_spec_b_sound.
 Theorem c11_inb_model_passes_checker : forall reqs, key_determines_body reqs -> forall s,
   inb_reach reqs s ->
   (forall i, i < length reqs -> Inb.a_out (Inb.act s i) <> None) ->
-  spec_b reqs (inb_observe reqs s) = None.
+  spec_b false reqs (inb_observe reqs s) = None.
 Proof. exact ProofsCheckerInb.spec_b_model. Qed.
 Print Assumptions c11_inb_model_passes_checker.
 
 Theorem c11_sub_model_passes_checker : forall reqs, sub_key_determines_body reqs -> forall s,
   sub_reach reqs s ->
   (forall i, i < length reqs -> Sub.a_out (Sub.act s i) <> None) ->
-  spec_b reqs (sub_observe reqs s) = None.
+  spec_b true reqs (sub_observe reqs s) = None.
 Proof. exact ProofsCheckerSub.spec_b_model. Qed.
 Print Assumptions c11_sub_model_passes_checker.
+
+(* ------------------------------------------------------------------ panics, the registry, private writers *)
+(* no wedge, also after panics: while anybody has not returned, an action is enabled that is neither a
+   cancellation nor a panic *)
+Theorem c11_inb_progress_benign : forall reqs s,
+  inb_reach reqs s ->
+  (exists i, Inb.exists_b reqs i = true /\ Inb.a_pc (Inb.act s i) <> Inb.PDone) ->
+  exists x, is_cancel x = false /\ ProofsInb.is_panic x = false /\ Inb.step fixed reqs s x <> None.
+Proof. exact ProofsInbMain.progress_benign_l. Qed.
+Print Assumptions c11_inb_progress_benign.
+
+Theorem c11_sub_progress_benign : forall reqs s,
+  sub_reach reqs s ->
+  (exists i, Sub.exists_b reqs i = true /\ Sub.a_pc (Sub.act s i) <> Sub.PDone) ->
+  exists x, is_cancel x = false /\ ProofsSubMain.is_panic x = false /\ Sub.step fixed reqs s x <> None.
+Proof. exact ProofsSubMain.progress_benign_l. Qed.
+Print Assumptions c11_sub_progress_benign.
+
+(* a panic is seen only by the participant into whose own work / own writer the environment injected it
+   (inbound: the followers of a panicked leader execute on their own) ... *)
+Theorem c11_inb_crash_origin : forall reqs s i f,
+  inb_reach reqs s -> Inb.a_out (Inb.act s i) = Some (OCrash f) ->
+  f = None /\ (Inb.a_ans (Inb.act s i) = Some APanic \/ Inb.a_wr (Inb.act s i) = Some WPanic).
+Proof. exact ProofsInbMain.crash_origin_l. Qed.
+Print Assumptions c11_inb_crash_origin.
+
+(* ... subgraph: or, as "released with nothing published" (res.out = nil), by the followers of exactly the
+   leader whose load panicked - the failure of the shared work *)
+Theorem c11_sub_crash_origin : forall reqs s i f,
+  sub_reach reqs s -> Sub.a_out (Sub.act s i) = Some (OCrash f) ->
+  (f = None /\ Sub.a_ans (Sub.act s i) = Some APanic) \/
+  (exists j, f = Some j /\ j <> i /\ Sub.a_ref (Sub.act s i) = Some j /\ Sub.a_ans (Sub.act s j) = Some APanic /\
+             Sub.a_out (Sub.act s j) = Some (OCrash None) /\
+             rkey (Sub.rq reqs i) = rkey (Sub.rq reqs j) /\
+             elig (Sub.rq reqs i) = true /\ elig (Sub.rq reqs j) = true).
+Proof. exact ProofsSubMain.crash_origin_l. Qed.
+Print Assumptions c11_sub_crash_origin.
+
+(* a key is registered only while its leader is still inside the call and its channel is open *)
+Theorem c11_inb_registry_clean : forall reqs s k j,
+  inb_reach reqs s -> Inb.tbl s k = Some j ->
+  Inb.exists_b reqs j = true /\ Inb.a_ref (Inb.act s j) = Some j /\ rkey (Inb.rq reqs j) = k /\
+  Inb.a_pc (Inb.act s j) <> Inb.PDone /\ Inb.e_done (Inb.ent s j) = false.
+Proof. exact ProofsInbMain.registry_clean_l. Qed.
+Print Assumptions c11_inb_registry_clean.
+
+Theorem c11_sub_registry_clean : forall reqs s k j,
+  sub_reach reqs s -> Sub.tbl s k = Some j ->
+  Sub.exists_b reqs j = true /\ Sub.a_ref (Sub.act s j) = Some j /\ rkey (Sub.rq reqs j) = k /\
+  Sub.a_pc (Sub.act s j) <> Sub.PDone /\ Sub.it_loaded (Sub.itm s j) = false.
+Proof. exact ProofsSubMain.registry_clean_l. Qed.
+Print Assumptions c11_sub_registry_clean.
+
+Theorem c11_inb_quiescent_registry_empty : forall reqs s,
+  inb_reach reqs s -> (forall i, Inb.exists_b reqs i = true -> Inb.a_pc (Inb.act s i) = Inb.PDone) ->
+  forall k, Inb.tbl s k = None.
+Proof. exact ProofsInbMain.quiescent_registry_empty_l. Qed.
+Print Assumptions c11_inb_quiescent_registry_empty.
+
+Theorem c11_sub_quiescent_registry_empty : forall reqs s,
+  sub_reach reqs s -> (forall i, Sub.exists_b reqs i = true -> Sub.a_pc (Sub.act s i) = Sub.PDone) ->
+  forall k, Sub.tbl s k = None.
+Proof. exact ProofsSubMain.quiescent_registry_empty_l. Qed.
+Print Assumptions c11_sub_quiescent_registry_empty.
+
+(* a leader that has left - returned, failed, panicked in its work or in its writer - has closed its channel
+   and is registered under no key: nobody can join or wait for a dead leader *)
+Theorem c11_inb_leader_gone_released : forall reqs s j,
+  inb_reach reqs s -> Inb.a_ref (Inb.act s j) = Some j -> Inb.a_pc (Inb.act s j) = Inb.PDone ->
+  Inb.e_done (Inb.ent s j) = true /\ forall k, Inb.tbl s k <> Some j.
+Proof. exact ProofsInbMain.leader_gone_released_l. Qed.
+Print Assumptions c11_inb_leader_gone_released.
+
+Theorem c11_sub_leader_gone_released : forall reqs s j,
+  sub_reach reqs s -> Sub.a_ref (Sub.act s j) = Some j -> Sub.a_pc (Sub.act s j) = Sub.PDone ->
+  Sub.it_loaded (Sub.itm s j) = true /\ forall k, Sub.tbl s k <> Some j.
+Proof. exact ProofsSubMain.leader_gone_released_l. Qed.
+Print Assumptions c11_sub_leader_gone_released.
+
+(* the result of a participant's own client Write is its private matter: success and failure lead to states
+   that differ in that participant's [a_wr] only *)
+Theorem c11_inb_write_failure_private : forall reqs s i s1 s2,
+  Inb.step fixed reqs s (Wr i WOk) = Some s1 -> Inb.step fixed reqs s (Wr i WFail) = Some s2 ->
+  Inb.tbl s1 = Inb.tbl s2 /\ Inb.ent s1 = Inb.ent s2 /\ (forall j, j <> i -> Inb.act s1 j = Inb.act s2 j) /\
+  Inb.a_pc (Inb.act s1 i) = Inb.a_pc (Inb.act s2 i) /\ Inb.a_out (Inb.act s1 i) = Inb.a_out (Inb.act s2 i) /\
+  Inb.a_ref (Inb.act s1 i) = Inb.a_ref (Inb.act s2 i).
+Proof. exact ProofsInbMain.write_failure_private_l. Qed.
+Print Assumptions c11_inb_write_failure_private.
+
+(* shared bytes are the product of the leader's WORK (answered ok / failure body, never under the leader's
+   cancelled context), whatever happened to the leader's own Write afterwards *)
+Theorem c11_inb_follower_unaffected_by_leader_write : forall reqs s i k d j,
+  inb_reach reqs s -> Inb.a_out (Inb.act s i) = Some (OWrote k d (Some j)) ->
+  Inb.a_ans (Inb.act s j) = Some (ProofsInb.ans_of_kind k) /\ d = body (Inb.rq reqs j) k /\ k <> KCan.
+Proof. exact ProofsInbMain.follower_unaffected_by_leader_write_l. Qed.
+Print Assumptions c11_inb_follower_unaffected_by_leader_write.
+
+(* the quiescence checker (per-actor clauses + registry) *)
+Theorem c11_spec_q_b_sound : forall sub reqs os reg,
+  spec_q_b sub reqs os reg = None -> reg = 0 /\ forall i, i < length reqs -> actor_ok sub reqs os i.
+Proof. exact ProofsSpec.spec_q_b_sound. Qed.
+Print Assumptions c11_spec_q_b_sound.
+
+Theorem c11_inb_model_passes_quiescence_checker : forall reqs, key_determines_body reqs -> forall s,
+  inb_reach reqs s -> (forall i, i < length reqs -> Inb.a_pc (Inb.act s i) = Inb.PDone) ->
+  spec_q_b false reqs (inb_observe reqs s) (inb_registered reqs s) = None.
+Proof. exact ProofsCheckerInb.spec_q_b_model. Qed.
+Print Assumptions c11_inb_model_passes_quiescence_checker.
+
+Theorem c11_sub_model_passes_quiescence_checker : forall reqs, sub_key_determines_body reqs -> forall s,
+  sub_reach reqs s -> (forall i, i < length reqs -> Sub.a_pc (Sub.act s i) = Sub.PDone) ->
+  spec_q_b true reqs (sub_observe reqs s) (sub_registered reqs s) = None.
+Proof. exact ProofsCheckerSub.spec_q_b_model. Qed.
+Print Assumptions c11_sub_model_passes_quiescence_checker.
 
 (* ------------------------------------------------------------------ historical code *)
 Theorem c11_inb_no_double_close_refuted :
@@ -170,3 +286,36 @@ Theorem c11_sub_err_origin_refuted :
     Sub.a_out (Sub.act s i) = Some (OErr (ECtx j)).
 Proof. exact ProofsRefuted.sub_err_origin_refuted_l. Qed.
 Print Assumptions c11_sub_err_origin_refuted.
+
+(* the inbound caller before c11_fix_c (nothing deferred, [asis]): a leader that panics in its work, or in
+   its client Write after the shared work succeeded, leaves Done open and the key registered; the waiting
+   follower is not cancelled and NO action other than a cancellation is enabled any more *)
+Theorem c11_inb_panic_wedges_refuted :
+  exists reqs tr s o,
+    Inb.run asis reqs tr Inb.init = Some (s, o) /\
+    Inb.a_pc (Inb.act s 0) = Inb.PDone /\ Inb.a_out (Inb.act s 0) = Some (OCrash None) /\
+    Inb.exists_b reqs 1 = true /\ Inb.a_pc (Inb.act s 1) = Inb.PWait /\ Inb.a_cancel (Inb.act s 1) = false /\
+    (forall x, is_cancel x = false -> Inb.step asis reqs s x = None) /\
+    Inb.tbl s (rkey ProofsRefuted.wreq) = Some 0 /\ Inb.e_done (Inb.ent s 0) = false.
+Proof. exact ProofsRefuted.inb_panic_wedges_asis_l. Qed.
+Print Assumptions c11_inb_panic_wedges_refuted.
+
+Theorem c11_inb_writer_panic_wedges_refuted :
+  exists reqs tr s o,
+    Inb.run asis reqs tr Inb.init = Some (s, o) /\
+    Inb.a_pc (Inb.act s 0) = Inb.PDone /\ Inb.a_pc (Inb.act s 1) = Inb.PWait /\
+    (forall x, is_cancel x = false -> Inb.step asis reqs s x = None) /\
+    Inb.tbl s (rkey ProofsRefuted.wreq) = Some 0.
+Proof. exact ProofsRefuted.inb_writer_panic_wedges_asis_l. Qed.
+Print Assumptions c11_inb_writer_panic_wedges_refuted.
+
+(* loadByContext with Finish called on the ordinary return paths instead of deferred ([nodefer]) *)
+Theorem c11_sub_panic_wedges_without_defer_refuted :
+  exists reqs tr s o,
+    Sub.run nodefer reqs tr Sub.init = Some (s, o) /\
+    Sub.a_pc (Sub.act s 0) = Sub.PDone /\ Sub.a_out (Sub.act s 0) = Some (OCrash None) /\
+    Sub.exists_b reqs 1 = true /\ Sub.a_pc (Sub.act s 1) = Sub.PWait /\ Sub.a_cancel (Sub.act s 1) = false /\
+    (forall x, is_cancel x = false -> Sub.step nodefer reqs s x = None) /\
+    Sub.tbl s (rkey ProofsRefuted.wreq) = Some 0 /\ Sub.it_loaded (Sub.itm s 0) = false.
+Proof. exact ProofsRefuted.sub_panic_wedges_nodefer_l. Qed.
+Print Assumptions c11_sub_panic_wedges_without_defer_refuted.
